@@ -2,6 +2,7 @@ package vedirect
 
 import (
 	"errors"
+	"fmt"
 )
 
 // Errors for VeCommand, GetUInt, GetInt, GetString
@@ -19,7 +20,9 @@ func responseError(flag VeResponseFlag) error {
 		return ErrorNotSupported
 	case VeResponseFlagParameterError:
 		return ErrorParameterError
-	default:
+	case VeResponseFlagOk:
 		return nil
+	default:
+		return fmt.Errorf("device responded with unknown flags 0x%02X", byte(flag))
 	}
 }
